@@ -51,6 +51,22 @@ void h_split(void) {      /* mp::internal::ReadNames on an arbitrary buffer */
   VF_ASSERT(got == nlines, "every line is reported exactly once, in order");
   VF_WITNESS();
 }
+void h_name_lookup(void) {      /* NameProvider::name(i) from the state ReadNames leaves behind */
+  mkbuf(); VF_REQUIRE(!has_tail && nlines >= 1);
+  u32 offs[MAXLEN + 2];
+  for (u32 i = 0; i < MAXLEN + 1; i++) { if (i >= nlines) break; offs[i] = line_start[i]; }
+  u32 endm = line_start[nlines - 1] + line_len[nlines - 1] + 1;         /* NameProvider::ReadNames: last_name.data() + size + 1 */
+  for (u32 i = 0; i < MAXLEN + 2; i++) { if (i >= nlines) offs[i] = endm; }   /* fixed-size vector (concrete allocation); entries past the end marker are never used for idx < nlines */
+  char *np = w_np_make(vf_names_buf, (char *)offs, MAXLEN + 2);
+  VF_REQUIRE(np != 0);
+  u64 idx = vf_nd64() % (MAXLEN + 1); VF_REQUIRE(idx < nlines);
+  char out[24]; u64 len = 0;
+  u32 rc = w_np_name(np, idx, out, sizeof out, (char *)&len); VF_OBS(rc); VF_OBS(len);
+  VF_ASSERT(rc == 0, "name() does not throw");
+  VF_ASSERT(len == line_len[idx], "name i has the length of line i without its line end");
+  for (u32 k = 0; k < MAXLEN; k++) { if (k >= len || k >= line_len[idx]) break; VF_ASSERT(out[k] == vf_names_buf[line_start[idx] + k], "name i is the text of line i"); }
+  VF_WITNESS();
+}
 void h_names(void) {
   mkbuf();
 #ifdef KF_empty_first_line
